@@ -23,24 +23,73 @@ type ReplayFile struct {
 	SolverOut  string            `json:"solver_output"`
 }
 
-func writeReplay(P *Program, dir, prop string, o *Obligation) string {
+// writeReplays turns the failed obligations into replay files; counterexamples are executed against the
+// real code, batched into one "go test -overlay" run per package.
+func writeReplays(P *Program, dir, prop string, obls []*Obligation) []string {
 	os.MkdirAll(dir, 0o755)
-	rf := &ReplayFile{Property: prop, Obligation: o.Name, Kind: o.Kind, Function: o.Fn, Clause: o.Clause, Answer: o.Answer, Solver: o.Solver, SolverOut: truncate(o.Model, 20000)}
-	if o.Answer == "sat" {
-		vals := parseModel(o.Model)
+	type job struct {
+		o    *Obligation
+		rf   *ReplayFile
+		vals map[string]string
+		t    *replayTest
+		name string
+	}
+	var jobs []*job
+	byPkg := map[string][]*job{}
+	for i, o := range obls {
+		rf := &ReplayFile{Property: prop, Obligation: o.Name, Kind: o.Kind, Function: o.Fn, Clause: o.Clause, Answer: o.Answer, Solver: o.Solver, SolverOut: truncate(o.Model, 20000)}
+		j := &job{o: o, rf: rf, name: fmt.Sprintf("TestGovcReplay_%d", i)}
+		jobs = append(jobs, j)
+		if o.Answer != "sat" {
+			continue
+		}
+		j.vals = parseModel(o.Model)
 		rf.Inputs = map[string]string{}
 		for _, mv := range o.model {
-			if v, ok := vals[mv.Term]; ok {
+			if v, ok := j.vals[mv.Term]; ok {
 				rf.Inputs[mv.Name] = v
 			}
 		}
-		tryReplay(P, rf, o, vals)
-		o.replayed = rf.Reproduced
+		t, err := P.buildReplayTest(o, j.vals)
+		if err != nil {
+			rf.Output = "replay not constructible: " + err.Error()
+			continue
+		}
+		j.t = t
+		for k, v := range t.inputs {
+			rf.Inputs[k] = v
+		}
+		rf.GoTest = assembleTestFile(t.pkg, []*replayTest{t}, []string{"TestGovcReplay"})
+		rf.Cmd = "go test -overlay <ov.json> -vet=off -timeout 60s -run ^TestGovcReplay -count=1 -v ./" + t.pkg + "/   (or: govc replay <this file>)"
+		byPkg[t.pkg] = append(byPkg[t.pkg], j)
 	}
-	path := filepath.Join(dir, sanitize(o.Name)+".json")
-	b, _ := json.MarshalIndent(rf, "", " ")
-	os.WriteFile(path, append(b, '\n'), 0o644)
-	return path
+	for pkg, js := range byPkg {
+		var ts []*replayTest
+		var names []string
+		for _, j := range js {
+			ts = append(ts, j.t)
+			names = append(names, j.name)
+		}
+		out, _ := runGoTest(P.repo, pkg+".x", assembleTestFile(pkg, ts, names))
+		secs := splitTestOutput(out)
+		for _, j := range js {
+			sec, ok := secs[j.name]
+			if !ok {
+				j.rf.Output = "replay did not run: " + truncate(out, 3000)
+				continue
+			}
+			judgeReplay(j.rf, j.o, j.vals, sec)
+			j.o.replayed = j.rf.Reproduced
+		}
+	}
+	var paths []string
+	for _, j := range jobs {
+		path := filepath.Join(dir, sanitize(j.o.Name)+".json")
+		b, _ := json.MarshalIndent(j.rf, "", " ")
+		os.WriteFile(path, append(b, '\n'), 0o644)
+		paths = append(paths, path)
+	}
+	return paths
 }
 
 func truncate(s string, n int) string {
